@@ -716,9 +716,15 @@ func runEntry(c *corpusT, s scenario, q string) (out runOut, first *runOut) {
 	case "cached":
 		cdb := database.VerifNewCachedDatabase(c.db, 50, 0)
 		prime(func(po database.SearchOptions) { cdb.SearchWithOptionsAndCache(q, po) })
-		f := runOut{hits: toHits(cdb.SearchWithOptionsAndCache(q, o))}
+		forms := []func(string, database.SearchOptions) []database.SearchResult{cdb.SearchWithOptionsAndCache, cdb.SearchWithFuzzyAndCache,
+			cdb.SearchWithPipelineOptionsAndCache} // three names for the same request
+		k := len(q) + s.Limit + b2i(s.NLP)
+		if k < 0 {
+			k = -k
+		}
+		f := runOut{hits: toHits(forms[k%3](q, o))}
 		first = &f
-		out.hits = toHits(cdb.SearchWithOptionsAndCache(q, o))
+		out.hits = toHits(forms[(k+1)%3](q, o))
 		out.path = "cached"
 	case "monitored":
 		mdb := database.VerifNewMonitoredDatabase(c.db, 50, 0)
